@@ -8,6 +8,7 @@ import (
 	"bytes"
 	"encoding/hex"
 	"fmt"
+	"reflect"
 	"strings"
 
 	"github.com/pion/rtcp"
@@ -49,6 +50,7 @@ func execHist(r *R) string {
 	var hu []heldU32
 	snapState := bodyTokens(p)
 	isXR := kind == "XR"
+	deep := deepCopy(reflect.ValueOf(p)).Interface() // distinguishes nil from empty slices, which the tokens do not
 	var canaries *canarySet
 	if kind != "RAW" {
 		canaries = plantCanaries(p)
@@ -137,6 +139,12 @@ func execHist(r *R) string {
 		}
 		if now := bodyTokens(p); now != snapState {
 			return fmt.Sprintf("mutated step=%d packet", i)
+		}
+		if deep != nil && !isXR && !strings.HasPrefix(op, "U") && !reflect.DeepEqual(deep, p) {
+			return fmt.Sprintf("mutated step=%d packet (a nil slice became empty, or the like)", i)
+		}
+		if strings.HasPrefix(op, "U") {
+			deep = deepCopy(reflect.ValueOf(p)).Interface()
 		}
 		if m := check(i); m != "" {
 			return m
